@@ -204,9 +204,11 @@ def recursiveSteps (fn : FastNet W) (σ : Nat → W → Option W) (s : FState W)
 
 def zeroFrom (k : Nat) (l : List W) : List W := (List.range l.length).map fun i => if i ≥ k then Scalar.zero else getW l i
 
-/-- `Flush`: zero both signal arrays from `biasNeuronCount` on; nothing else -/
+/-- `Flush` (after repair 1a387d5): zero `neuronSignals` from `biasNeuronCount` on (the bias signals are kept) and
+    ALL of `neuronSignalsBeingProcessed`; nothing else.  The loop before the repair (both arrays from
+    `biasNeuronCount` on) is frozen in Model/LegacySolverMod.lean. -/
 def flush (fn : FastNet W) (s : FState W) : Res W :=
-  ({ s with signals := zeroFrom fn.nBias s.signals, processing := zeroFrom fn.nBias s.processing }, true, none)
+  ({ s with signals := zeroFrom fn.nBias s.signals, processing := zeroFrom 0 s.processing }, true, none)
 
 def loadLoop (base : Nat) : List W → Nat → List W → List W
   | [], _, sig => sig
